@@ -1109,8 +1109,14 @@ func (g *gen) genCred(n int) {
 		g.emit("STR b")
 		g.emit("DUMP a")
 		g.emit("DUMP b")
-		// and the decoded form
+		// and the decoded form: both packets through the wire, then rendered again
 		g.emit("RT a")
+		g.emit("RDP a da")
+		g.emit("RDP b db")
+		g.emit("STR da")
+		g.emit("STR db")
+		g.emit("DUMP da")
+		g.emit("DUMP db")
 	}
 }
 
